@@ -108,6 +108,7 @@ def other_docs(tier, seed_):
     """fixed pools (generated, systematic) in a VERIF_SEED-chosen subset for quick, complete for thorough; repository documents"""
     n_gen, n_sys = (400, 400) if tier == "quick" else (docgen.POOL, docgen.SYS_POOL)
     docs = inline_docs(tier) + lrd_docs(tier) + position_docs(tier) + docgen.documents(n_gen, seed_) + docgen.systematic(seed_, n_sys)
+    docs += docgen.fix_families()             # ordinary-looking nested documents (lists in lists in quotes, fences, headings inside items)
     paths = corpus.rule_docs() if tier == "thorough" else corpus.sample(corpus.rule_docs(), 150, seed_)
     for p in paths + (corpus.project_docs() if tier == "thorough" else corpus.sample(corpus.project_docs(), 15, seed_)):
         try:
